@@ -186,9 +186,9 @@ def tailLoop (ops : BufOps β) (cfg : Cfg) (host : Bytes) (strm : Nat) :
     call never emits, because no complete line survives `_do_output`. -/
 def flushOutput (ops : BufOps β) (cfg : Cfg) (host t0host : Bytes) (strm : Nat) (b : β) (rc : Int) :
     β × List Em :=
-  let (b1, _, e1) := flushLines ops cfg t0host strm false (ops.used b + 1) b rc []
-  let (b2, e2) := tailLoop ops cfg host strm (ops.used b1 + 1) b1 false []
-  (b2, e1 ++ e2)
+  let fl := flushLines ops cfg t0host strm false (ops.used b + 1) b rc []
+  let tl := tailLoop ops cfg host strm (ops.used fl.1 + 1) fl.1 false []
+  (tl.1, fl.2.2 ++ tl.2)
 
 /-! ### one remote stream (descriptor + its buffer) and the read loop of `_rsh_thread` -/
 
